@@ -41,8 +41,8 @@ Proof. exact (ls_fresh hash f). Qed.
    specification map holds it (so: iff a lookup finds it), with the entry the lookup finds *)
 Theorem C10_listing_after_history (h : list cop) :
   HashLen hash ->
-  forallb (c_ok hash) h = true -> NoColl hash (c_all (fold_left c_step h cspec0)) -> existsb c_indexes h = true ->
-  let f := fold_left (c_run hash) h [] in let s := fold_left c_step h cspec0 in
+  forallb (c_ok hash) h = true -> NoColl hash (c_all (fold_left (c_step hash) h cspec0)) -> existsb c_indexes h = true ->
+  let f := fold_left (c_run hash) h [] in let s := fold_left (c_step hash) h cspec0 in
   exists items, run (ls hash) f = (Ok items, f) /\
     (forall it, In it items -> exists m, it = LMeta m) /\
     (forall m, In (LMeta m) items <-> abs_idx hash f (m_key m) = Some m) /\
@@ -53,7 +53,7 @@ Proof. intros HL. exact (listing_after_history hash HL h). Qed.
 (* the shape invariants themselves are invariants of every history *)
 Theorem C10_shape_reachable (h : list cop) f0 s0 :
   HashLen hash ->
-  CInv hash f0 s0 -> LInv hash f0 -> forallb (c_ok hash) h = true -> NoColl hash (c_all (fold_left c_step h s0)) ->
+  CInv hash f0 s0 -> LInv hash f0 -> forallb (c_ok hash) h = true -> NoColl hash (c_all (fold_left (c_step hash) h s0)) ->
   LInv hash (fold_left (c_run hash) h f0).
 Proof. intros HL H0 Hl Hok Hnc. exact (proj1 (proj2 (lhistory hash HL h f0 s0 H0 Hl Hok Hnc))). Qed.
 
@@ -87,7 +87,7 @@ Example C10_history_example :
   let h := [CWrite Sync Sha256 (bs "k1") (bs "same") 1%N; CStream Async (bs "k2") (mkWopts (Some Sha256) None None None None None) [bs "sa"; bs "me"] 2%N;
             CWriteHash Sync Sha1 (bs "other"); CRemoveHash Sha256 (bs "same"); CWrite Sync Sha1 (bs "k1") (bs "new") 5%N;
             CWrite Sync Sha1 (bs "k3") (bs "x") 6%N; CRemove (bs "k3") 7%N] in
-  forallb (c_ok toy_hash) h = true /\ NoColl toy_hash (c_all (fold_left c_step h cspec0)) /\ existsb c_indexes h = true /\
+  forallb (c_ok toy_hash) h = true /\ NoColl toy_hash (c_all (fold_left (c_step toy_hash) h cspec0)) /\ existsb c_indexes h = true /\
   match fst (run (ls toy_hash) (fold_left (c_run toy_hash) h [])) with
   | Ok items => map (fun it => match it with LMeta m => m_key m | LErr _ => [] end) items = [bs "k2"; bs "k1"] \/
                 map (fun it => match it with LMeta m => m_key m | LErr _ => [] end) items = [bs "k1"; bs "k2"]
